@@ -184,3 +184,15 @@ Print Assumptions C09_hypotheses_hold.
 Example C09_jitter_hypothesis_holds : forall i d, 0 <= d -> 0 <= jitter_max i d /\ jitter_max i d <= d.
 Proof. exact jitter_max_bounds. Qed.
 Print Assumptions C09_jitter_hypothesis_holds.
+
+Example C09_table_hypotheses_hold :
+  let mc := mkMC [mkName (Some "p.v1.Alpha") (Some "GetA")] (Some "60s")
+                 (Some (mkPolicy (Some "0.5s") (Some "1.250s") (Some (13 # 10)) ["UNAVAILABLE"; "DEADLINE_EXCEEDED"])) in
+  parse_timeout (mc_timeout mc) = inr (Some (60 # 1))
+  /\ duration_or_zero (Some "0.5s") = inr (5 # 10) /\ duration_or_zero (Some "1.250s") = inr (1250 # 1000)
+  /\ Forall (fun c => In c ERR_CODES) ["UNAVAILABLE"; "DEADLINE_EXCEEDED"]
+  /\ length ERR_CODES = 16%nat
+  /\ sall is_digit "1" = true /\ sall is_digit "250" = true /\ dec_value "250" = 250%Z /\ "1"%string <> ""%string
+  /\ to_float "1.250s" = Some (1250 # 1000).
+Proof. exact ex_table_hypotheses. Qed.
+Print Assumptions C09_table_hypotheses_hold.
